@@ -23,3 +23,9 @@ run C17-a C17;         run C17-b C17
 run C18-a C18;         run C18-b C18 C13
 run C19-a C19;         run C19-b C19
 run C20-a C20;         run C20-b C20
+run C10-c C10;         run C01-c C01 C03
+run C06-c C06;         run C12-b C12
+run C17-c C17;         run C08-b C08
+run C05-c C05;         run C13-c C13
+run C19-c C19;         run C02-c C02
+run C14-c C14;         run C07-c C07
